@@ -68,7 +68,8 @@ theorem finish_direct (c : Cfg) (ar aq : Nat) (s : S) (b : Base c ar aq s) (hrun
     exact tail_down c ar aq s b hcl hd (fun _ => hlc)
   · rw [if_neg hd, if_pos hdir]
     simp only []
-    rw [rsReset_retries_of_not_held c s hheld]
+    rw [abandonRetry_id (s := { s with direct := false, rs := none, retries := (rsReset c s).retries }) hsr,
+      rsReset_retries_of_not_held c s hheld]
     by_cases how : c.oneway = true
     · rw [if_pos how]
       exact tail_oneway c ar aq s b hrun hcl how h3 h6 hpd hsr hpass hrst none (Or.inr ⟨rfl, hheld⟩) h27
@@ -93,7 +94,8 @@ theorem finish_direct_gen (c : Cfg) (ar aq : Nat) (s : S) (b : Base c ar aq s) (
     exact tail_down c ar aq s b hcl hd (fun _ => hlc)
   · rw [if_neg hd, if_pos hdir]
     simp only []
-    rw [if_neg (by simp [how]), if_pos hph]
+    rw [abandonRetry_id (s := { s with direct := false, rs := none, retries := (rsReset c s).retries }) hsr,
+      if_neg (by simp [how]), if_pos hph]
     exact tail_direct_gen c ar aq s b hrun hcl how h3 h6 hpd hsr hpass hlc hresp hur hpt hgt hrst
 
 /-- an upstream reset is seen after the response has started going downstream (the rest of a streamed response was
@@ -166,7 +168,7 @@ theorem finish_started (c : Cfg) (ar aq : Nat) (s : S) (b : Base c ar aq s) (hcl
 
 /-- the end of a phase whose body kept the invariant (and is not the one-way clean phase) -/
 theorem finish_inv (c : Cfg) (ar aq : Nat) (s : S) (h : Inv c ar aq s) (hrun : s.running = true)
-    (hnw : s.phase ≠ .WaitNotify) (hph : s.phase = .Oneway → c.oneway = false)
+    (hnw : ¬ (s.phase = .WaitNotify ∨ s.phase = .Retry)) (hph : s.phase = .Oneway → c.oneway = false)
     (hadv : s.upReset = false → s.downReset = false → Inv c ar aq { s with phase := s.phase.next }) :
     Inv c ar aq (finishPhase c s) := by
   have hcl : s.cleaned = false := by
@@ -188,17 +190,18 @@ theorem finish_inv (c : Cfg) (ar aq : Nat) (s : S) (h : Inv c ar aq s) (hrun : s
       cases ho : c.oneway with
       | false => rfl
       | true => have := (h.k32 hcl ho).1; rw [hupp] at this; cases this
-    by_cases hpf : s.phase = .UpFilter
-    · -- [proxy7] the reset was raised while the sender filters ran: nothing went downstream yet, it may be retried
-      have hurr : s.urr = true := by
+    by_cases hpf : s.phase = .UpFilter ∨ s.phase = .UpRecvHeader
+    · -- [proxy7] the reset was raised while the sender filters ran ([proxy10] or before the head was forwarded): nothing went
+      -- downstream yet, it may be retried
+      have hurr : s.urr = true ∧ s.rs.isSome = true := by
         rcases hwhere hur with hp | hp | hp
-        · rw [hpf] at hp; cases hp
-        · rw [hpf] at hp; cases hp
+        · rcases hpf with hpf | hpf <;> (rw [hpf] at hp; cases hp)
+        · rcases hpf with hpf | hpf <;> (rw [hpf] at hp; cases hp)
         · exact hp.2
-      have hrst0 : s.respStarted = false := by rw [hrst, hpf]; decide
+      have hrst0 : s.respStarted = false := by rcases hpf with hpf | hpf <;> (rw [hrst, hpf]; decide)
       rw [finishPhase_eq, processError_spec, if_neg (by simp [hcl]), if_pos hur, if_neg (by simp [how])]
-      apply upreset_branch c ar aq s h.base hrun hcl how h.k3 h.k6 hpd hsr (h.k8 hcl).1 (fun hq => absurd hpf hq)
-        (fun hq => h.k25 hcl how hq) (h.k23 hcl (Or.inl hur)) hrst0 (fun _ => hurr)
+      apply upreset_branch c ar aq s h.base hrun hcl how h.k3 h.k6 hpd hsr (h.k8 hcl).1 (fun _ => h.k25 hcl how hurr.2)
+        (fun hq => h.k25 hcl how hq) (h.k23 hcl (Or.inl hur)) hrst0 (fun _ => hurr.1)
       · intro hrs hq
         rcases h.k24 hcl how hq hrs with hh | hh | hh
         · exact Or.inl hh
@@ -238,8 +241,8 @@ theorem finish_inv (c : Cfg) (ar aq : Nat) (s : S) (h : Inv c ar aq s) (hrun : s
       · exact h0
       · rw [hup] at h0; cases h0
       · exact absurd h0 hne
-  · intro hur _ hu
-    exact h.k27 hcl (hfwd hur) hu
+  · intro hur _ _
+    exact Or.inl hur
   · intro hur how
     have hf := hfwd hur
     obtain ⟨hup, hrs⟩ := hmain hur
